@@ -13,7 +13,8 @@ R == Recs[l]
 Same(outs) == Cardinality({<<outs[i][1], outs[i][2]>> : i \in 1..Len(outs)}) <= 1
 Inv == /\ (R.kind \in {"group", "debug"} => \A i \in 1..Len(R.outs) : R.outs[i][5])
        /\ (R.kind = "group" => Same(R.outs))                                  \* every run, every CPU count, every I/O path
-       /\ (R.kind = "debug" => Same(<<R.plain>> \o R.outs))                   \* --debug changes nothing on stdout
+       /\ (R.kind = "debug" => /\ Same(<<R.plain>> \o R.outs)                \* --debug changes nothing on stdout
+                                /\ \A i \in 1..Len(R.sinks) : R.sinks[i][4] /\ R.sinks[i][2] = 0 /\ R.sinks[i][1] = R.plain[1])
        \* output sent where it cannot be read back (-o /dev/null): the same success, nothing on stdout
        /\ (R.kind = "group" => \A i \in 1..Len(R.sinks) : /\ R.sinks[i][4] /\ R.sinks[i][2] = 0
                                                             /\ (R.outs # <<>> => R.sinks[i][1] = R.outs[1][1]))
